@@ -842,6 +842,132 @@ def poisson_check():
     return n, bad
 
 
+# ---------------------------------------------------------------- many uniforms
+RANK1_N = 4093          # prime
+RANK1_A = 1487          # Korobov generator: g_j = A^j mod N
+
+
+def rank1_cases():
+    """samplers that take more uniforms per draw than a full tensor lattice
+    can enumerate (sums of s or n terms, rejection loops)"""
+    from scipy import stats
+    from pydsol.core import distributions as D
+    return [
+        ("NegBinomial(16,0.5)", lambda s: D.DistNegBinomial(s, 16, 0.5),
+         stats.nbinom(16, 0.5)),
+        ("NegBinomial(15,0.5)", lambda s: D.DistNegBinomial(s, 15, 0.5),
+         stats.nbinom(15, 0.5)),
+        ("NegBinomial(25,0.25)", lambda s: D.DistNegBinomial(s, 25, 0.25),
+         stats.nbinom(25, 0.25)),
+        ("NegBinomial(40,0.8)", lambda s: D.DistNegBinomial(s, 40, 0.8),
+         stats.nbinom(40, 0.8)),
+        ("NegBinomial(5,0.3)", lambda s: D.DistNegBinomial(s, 5, 0.3),
+         stats.nbinom(5, 0.3)),
+        ("Binomial(12,0.5)", lambda s: D.DistBinomial(s, 12, 0.5),
+         stats.binom(12, 0.5)),
+        ("Binomial(33,0.05)", lambda s: D.DistBinomial(s, 33, 0.05),
+         stats.binom(33, 0.05)),
+        ("Binomial(40,0.3)", lambda s: D.DistBinomial(s, 40, 0.3),
+         stats.binom(40, 0.3)),
+        ("Binomial(200,0.7)", lambda s: D.DistBinomial(s, 200, 0.7),
+         stats.binom(200, 0.7)),
+        ("Poisson(8)", lambda s: D.DistPoisson(s, 8.0), stats.poisson(8.0)),
+        ("Poisson(30)", lambda s: D.DistPoisson(s, 30.0), stats.poisson(30.0)),
+        ("Poisson(100)", lambda s: D.DistPoisson(s, 100.0),
+         stats.poisson(100.0)),
+        ("Erlang(0.5,5)", lambda s: D.DistErlang(s, 0.5, 5),
+         stats.erlang(5, scale=0.5)),
+        ("Erlang(2.5,9)", lambda s: D.DistErlang(s, 2.5, 9),
+         stats.erlang(9, scale=2.5)),
+        ("Erlang(2.5,12)", lambda s: D.DistErlang(s, 2.5, 12),
+         stats.erlang(12, scale=2.5)),
+        ("Erlang(0.5,25)", lambda s: D.DistErlang(s, 0.5, 25),
+         stats.erlang(25, scale=0.5)),
+        ("Gamma(0.5,2)", lambda s: D.DistGamma(s, 0.5, 2.0),
+         stats.gamma(0.5, scale=2.0)),
+        ("Gamma(2.5,2)", lambda s: D.DistGamma(s, 2.5, 2.0),
+         stats.gamma(2.5, scale=2.0)),
+        ("Gamma(30,0.5)", lambda s: D.DistGamma(s, 30.0, 0.5),
+         stats.gamma(30.0, scale=0.5)),
+        ("Beta(2,3)", lambda s: D.DistBeta(s, 2.0, 3.0), stats.beta(2.0, 3.0)),
+        ("Beta(0.5,0.5)", lambda s: D.DistBeta(s, 0.5, 0.5),
+         stats.beta(0.5, 0.5)),
+        ("Pearson5(4,2)", lambda s: D.DistPearson5(s, 4.0, 2.0),
+         stats.invgamma(4.0, scale=2.0)),
+        ("Pearson6(2,5,1.5)", lambda s: D.DistPearson6(s, 2.0, 5.0, 1.5),
+         stats.betaprime(2.0, 5.0, scale=1.5)),
+        ("Normal(1,2)", lambda s: D.DistNormal(s, 1.0, 2.0),
+         stats.norm(1.0, 2.0)),
+        ("LogNormal(0,0.5)", lambda s: D.DistLogNormal(s, 0.0, 0.5),
+         stats.lognorm(0.5)),
+    ]
+
+
+def rank1_worker(name):
+    """all N points of a rank-one (Korobov) lattice in as many dimensions as
+    the sampler asks for: the mean and the standard deviation of the N draws
+    against those of the declared distribution.  A coarse oracle (the lattice's own error on the
+    unchanged library is reported) for samplers no tensor lattice reaches.
+    Tolerances: mean within 0.15 sd (largest error on the unchanged library
+    0.04), sd ratio within [0.8, 1.25] (observed 0.92..1.05)."""
+    np = np_()
+    Lattice = make_stream()
+    N, A = RANK1_N, RANK1_A
+    gens = [pow(A, j, N) for j in range(4096)]
+
+    class Rank1(Lattice):
+        def __init__(self):
+            super().__init__()
+            self.point = 0
+            self.j = 0
+            self.maxj = 0
+
+        def next_float(self):
+            j = self.j
+            self.j += 1
+            if self.j > self.maxj:
+                self.maxj = self.j
+            if j >= 200000:
+                raise RuntimeError("draw does not return")
+            # coordinate j of lattice point `point`, shifted to the cell
+            # centre: never 0 or 1
+            return ((self.point * gens[j % 4096] + (j // 4096)) % N + 0.5) / N
+    mk, ref = [(m, r) for nm, m, r in rank1_cases() if nm == name][0]
+    st = Rank1()
+    d = mk(st)
+    xs = []
+    bad = []
+    # (point 0 has all coordinates equal: a rejection loop would never
+    # leave it; the remaining N-1 points are equidistributed as well)
+    for i in range(1, N):
+        st.point = i
+        st.j = 0
+        try:
+            xs.append(float(d.draw()))
+        except Exception as ex:  # noqa
+            bad.append(("draw-raises-on-a-lattice-point", name, i,
+                        type(ex).__name__))
+            break
+    info = {"name": name, "points": len(xs), "dims": st.maxj}
+    if bad or len(xs) < N - 1:
+        return info, bad
+    a = np.array(xs)
+    m, s = float(ref.mean()), float(ref.std())
+    lm, ls = float(a.mean()), float(a.std())
+    info.update(mean_err_sd=abs(lm - m) / s, sd_ratio=ls / s)
+    if not abs(lm - m) <= 0.15 * s:
+        bad.append(("sample-mean-off-the-declared-distribution", name,
+                    "lattice mean %.6g, declared %.6g (sd %.4g), %d "
+                    "dimensions" % (lm, m, s, st.maxj)))
+    # (the spread of a product of > 64 coordinates of one Korobov lattice
+    # is damped by the lattice itself - observed 0.69 for Poisson(100) on
+    # the unchanged library - so it is only demanded below that)
+    if st.maxj <= 64 and not 0.8 <= ls / s <= 1.25:
+        bad.append(("sample-spread-off-the-declared-distribution", name,
+                    "lattice sd %.6g, declared %.6g" % (ls, s)))
+    return info, bad
+
+
 def closed_form_draws():
     """samplers whose draw is a closed-form function of the uniforms it takes
     (inverse transform / sum of logarithms): exact comparison on every script
@@ -1090,6 +1216,26 @@ def run(ctx):
     ev += ns
     ctx.part("sibling instances of one class in one process, 3 orders",
              families=len(fams) // 3, evaluations=ns)
+    nr = 0
+    worst = (0.0, "")
+    spread = (1.0, "")
+    for info, bad_ in common.pimap(rank1_worker,
+                                   [x[0] for x in rank1_cases()]):
+        nr += info["points"]
+        if info.get("mean_err_sd", 0) > worst[0]:
+            worst = (info["mean_err_sd"], info["name"])
+        if abs(info.get("sd_ratio", 1.0) - 1.0) > abs(spread[0] - 1.0):
+            spread = (info["sd_ratio"], info["name"])
+        for b in bad_:
+            ctx.violation("C15:%s:%s" % (b[0], b[1]),
+                          "rank-one lattice of %d points: %s" % (RANK1_N, b),
+                          {"part": "rank1", "name": b[1]})
+    ev += nr
+    ctx.part("samplers with many uniforms per draw: all %d points of a "
+             "rank-one lattice, mean and spread of the draws vs the declared "
+             "distribution" % RANK1_N, cases=len(rank1_cases()), draws=nr,
+             largest_mean_error_in_sd="%.4f (%s)" % worst,
+             most_deviating_sd_ratio="%.4f (%s)" % spread)
     n, bad = limited(closed_form_draws, "the closed-form part")
     ev += n
     for b in bad:
@@ -1143,6 +1289,8 @@ def replay(data):
             or None
     if part == "closedform":
         return closed_form_draws()[1][:3] or None
+    if data.get("part") == "rank1":
+        return rank1_worker(data["name"])[1] or None
     if part == "largepmf":
         return large_parameter_pmf()[1][:3] or None
     if part == "poisson":
